@@ -250,3 +250,41 @@ check('C20', 'model_checking',
       'DESIGN.md §3 C20, Appendix B')
 for k in CHECKS:
     NOT_YET.pop(k, None)
+
+# ---- extensions made after the seeding rounds 3 and 4 (appended to the descriptions above)
+EXTRA = {
+    'C02': 'Additionally a large data set (2400 observations per slice) with one observation 60 spreads away, for the '
+           'three Gaussian covariance types.',
+    'C03': 'Additionally the posterior returned by fit_predict, perturbation 1e-9 (one-hot starts) and '
+           'single-precision data for the vMF models.',
+    'C04': 'Additionally observations that already have unit norm with gain moduli within 1e-5 of one, and rescaled '
+           'tensors handed over as Fortran-ordered / axis-permuted / strided / negatively strided views; the same model '
+           'applied to rescaled data is judged at rounding level.',
+    'C05': 'Additionally nearly tied classes (uniform start with 1e-5 jitter), one trainer object serving all relabelled '
+           'fits, and the built-in spatial/spectral alignment under every relabelling of every 3-value table (K<=3).',
+    'C06': 'Additionally stacks of hand-built parameter sets with one extreme or unusable slice, and stacks of tightly '
+           'concentrated slices.',
+    'C07': 'Additionally Fortran-ordered / axis-permuted parameter stacks, cACG eigenvalues of overall scale 1e-15..1e12, '
+           'Bingham spectra with one eigenvalue of -3.7e19, and parameters re-assigned on an evaluated object.',
+    'C08': 'Additionally the integration models with their built-in alignment against a reference E-step, with an active '
+           'clip of 0.05.',
+    'C09': 'Additionally trainers with different concentration bounds used one after the other (all ordered pairs and '
+           'triples) and Gaussian data 1e4..1e8 spreads from the origin with a symmetry predicate.',
+    'C10': 'Additionally transposed views as inputs, float32 masks whose sum is far below the float32 epsilon, and an '
+           'explicit source_dim with masks that have no source axis.',
+    'C11': 'Additionally noise PSDs stored with a real dtype and other memory layouts of the inputs.',
+    'C12': 'Additionally real-dtype, exactly diagonal and axis-aligned rank-one target PSDs.',
+    'C13': 'Additionally single-precision PSDs with zero bins.',
+    'C14': 'Additionally built-in alignment tables with log-likelihoods 800..2000 apart and nearly tied tables with a '
+           'negative criterion, a source-activity mask together with the inline aligner, and masks in other memory layouts.',
+    'C15': 'Additionally score-matrix stacks with 1..3 leading axes, magnitudes 1e8 (float32) / 1e17 (float64), and one '
+           'aligner object reused for a reference buffer refilled in place.',
+    'C17': 'Additionally sensor noise 80 and 120 dB below the sources; the scene is built on the reference DHTV plan and '
+           'the implementation plan is compared with it.',
+    'C18': 'Additionally transposed views as inputs and tuples of quantiles with non-default axes.',
+    'C19': 'Additionally inputs in other memory layouts.',
+    'C20': 'Additionally call_sequences: for every entry point X and every other entry point Y (all ordered pairs in the '
+           'thorough tier) the result of X after Y equals the result of X in a pristine process.',
+}
+for _k, _v in EXTRA.items():
+    CHECKS[_k]['level_claimed']['text'] += ' ' + _v
